@@ -8,7 +8,7 @@ import itertools
 
 from .cfgq import Scope, bool_taken, closure_id_of
 from .exprs import strip, short_callee, show, leaf_name, origin_desc, walk
-from .mir import callee_of
+from .mir import callee_name, callee_of
 from . import tables as TB
 
 
@@ -143,6 +143,32 @@ def _nonempty_value(prog, sc, node, depth=0):
             if not found:
                 return False, "caller %s not analysable" % cf.path
         return True, "every caller of %s passes a non-empty vec![..]" % sc.fn.path.split("::")[-1]
+    if p[0] == "arg" and sc.fn.kind not in ("fn", "assocfn"):
+        # a parameter of a closure that is bound to a local and called by name (`let mk = |.., polygon| ..; mk(.., vec![..])`): every call passes the value
+        from .cfgq import closure_id_of
+        rootf = prog.root_of(sc.fn)
+        sites = []
+        for (csc, cpar, cpb) in scopes_with_site(prog, rootf):
+            for b_, t_ in csc.body.calls():
+                nm_ = callee_name(t_) or ""
+                c_ = callee_of(t_) or {}
+                direct = (c_.get("rid") or c_.get("id")) == sc.fn.id
+                if not ((direct or nm_.endswith(("Fn::call", "FnMut::call_mut", "FnOnce::call_once"))) and len(t_["args"]) == 2):
+                    continue
+                recv = strip(csc.operand(t_["args"][0]))
+                if not direct and closure_id_of(recv) != sc.fn.id:
+                    continue
+                tup = strip(csc.operand(t_["args"][1]))
+                if tup[0] == "agg" and p[1] - 2 < len(tup[3]):
+                    sites.append((csc, tup[3][p[1] - 2]))
+                else:
+                    return False, "closure call with unreadable arguments"
+        if sites:
+            for csc, a_ in sites:
+                ok, why = _nonempty_value(prog, csc, a_, depth + 1)
+                if not ok:
+                    return False, "a call of the closure passes %s" % why
+            return True, "every call of the local closure passes a non-empty vec![..]"
     return False, show(p)[:60]
 
 
